@@ -228,6 +228,53 @@ pub fn check_frame(c: &FrameCase, st: &mut Stats) -> Result<(), Viol> {
     Ok(())
 }
 
+// ------------------------------------------------------------------- invalid parameters
+// A syntactically fine line whose parameter is not acceptable is answered with the specific
+// error and not executed (never silently read as something else).
+pub const INVALID_PARAM_LINES: &[&str] = &[
+    "STATS uptime", "STATS mu", "STATS uu", "STATS oper", "STATS :u m", "STATS :", "NICK a.b", "NICK a,b", "NICK #x",
+    "JOIN nochanprefix", "JOIN #a:b", "PART nochan", "TOPIC nochan :x", "KICK nochan n1", "INVITE n1 nochan", "PRIVMSG a.b :x", "NOTICE a:b :x",
+];
+
+#[derive(Clone, Debug, Serialize, Deserialize)]
+pub struct InvalidCase {
+    pub index: usize,
+    pub variant: usize,
+}
+
+pub fn check_invalid_param(c: &InvalidCase, st: &mut Stats) -> Result<(), Viol> {
+    let base = INVALID_PARAM_LINES[c.index % INVALID_PARAM_LINES.len()];
+    let (mut w, me) = scene(c.index as u64);
+    // the sender is an operator in variant 1 (STATS would be executed for it)
+    if c.variant == 1 {
+        w.send_line(me, "OPER op0 operpw0");
+        w.settle();
+        w.drain(me);
+    }
+    let line = if c.variant == 2 { base.to_lowercase() } else { base.to_string() };
+    w.send_line(me, &line);
+    w.send_line(me, "PING marker");
+    w.settle();
+    let lines = w.drain(me);
+    let others: Vec<String> = (1..3).flat_map(|c| w.drain(c)).collect();
+    let (class, witness) = classify(&lines);
+    crate::sim::set_in_sim(false);
+    for p in crate::sim::take_panics() {
+        if p.task.is_some() {
+            return Err(Viol::new("C13.executed_or_specific_error", format!("panic:{}", base), format!("`{}` aborted the handler: {} at {}", line, p.msg, p.loc)));
+        }
+    }
+    st.nontrivial(format!("{}|{}", base, c.variant), || json!({"line": line, "class": class}));
+    if class != "invalid-parameter" || !others.is_empty() || !lines.iter().any(|l| l.contains(" PONG ")) {
+        return Err(Viol::new(
+            "C13.executed_or_specific_error",
+            format!("invalid-param:{}", base.split(' ').next().unwrap_or("")),
+            format!("`{}` has an unacceptable parameter: expected the specific error and nothing else, got {} ({:?}); others saw {:?}", line, class, witness, others),
+        ));
+    }
+    Ok(())
+}
+
 // ------------------------------------------------------------------ unterminated last line
 // A line is a line only when its terminator has arrived: what a client has sent of its last,
 // unterminated line when the connection ends is never executed.
@@ -631,6 +678,10 @@ pub fn run_c13_sim(ctx: &RunCtx) -> Vec<PartOutcome> {
     }
     let idx2 = idx.clone();
     parts.push(enumerate(ctx, "verb_table", idx.len() as u64, move |i| idx2[i as usize].clone(), check_verb));
+    {
+        let n = INVALID_PARAM_LINES.len() as u64 * 3;
+        parts.push(enumerate(ctx, "invalid_params", n, |i| InvalidCase { index: (i / 3) as usize, variant: (i % 3) as usize }, check_invalid_param));
+    }
     parts.push(explore(ctx, "framing", ctx.tier.pick(2_000, 20_000), frame_strat, check_frame));
     parts.push(explore(ctx, "chunking", ctx.tier.pick(2_500, 30_000), chunk_strat, check_chunk));
     parts.push(explore(ctx, "eof_fragment", ctx.tier.pick(2_000, 20_000), || prop::collection::vec(any::<u16>(), 8).prop_map(|seeds| EofCase { seeds }), check_eof_fragment));
@@ -645,6 +696,7 @@ pub fn replay_c13_sim(part: &str, input: &Value) -> Option<Result<Result<(), Vio
         "framing" => Some(replay_input::<FrameCase>(input, check_frame)),
         "chunking" => Some(replay_input::<ChunkCase>(input, check_chunk)),
         "eof_fragment" => Some(replay_input::<EofCase>(input, check_eof_fragment)),
+        "invalid_params" => Some(replay_input::<InvalidCase>(input, check_invalid_param)),
         "relay" => Some(replay_input::<crate::scenario::ScCase>(input, |c, st| run_case(&RELAY, c, st))),
         _ => None,
     }
